@@ -23,7 +23,8 @@ RULE = ("two case kinds. params: a parameter class of draw_params.py (MPDrawPara
         "begin+1, begin+3, another horizon point, begin+40 or begin-1; mode 'plain' = shapes on, icons/signals/trajectories/"
         "extra occupancies/history off (other flags random), mode 'lattice' = every boolean field of the 87 nested groups "
         "flipped with probability 0/0.1/0.5/0.9, history steps, id filters (none, empty, subset, superset, unknown ids) for "
-        "lanelets, planning problems, traffic signs. Orientation and velocity of states are exact numbers. "
+        "lanelets, planning problems, traffic signs. Positions, orientations and velocities of obstacle states are exact "
+        "or uncertain (shape / interval). "
         "non-trivial = every case; distinct = distinct canonical JSON of the case")
 ASSUMPTIONS = ["matplotlib patch objects keep the vertex arrays / centre / width / height they were constructed with "
                "(Polygon.get_xy, Ellipse.center/width/height, PolyCollection.get_paths)",
